@@ -3,6 +3,7 @@
    Proofs: Numscript/CompileCorrect*.v (no_panic is a corollary of compiler correctness: [sem] has no Panic). *)
 From FL Require Import Numscript.CompileCorrectClasses.
 From FL Require Import Numscript.ResourceLimit.
+From FL Require Import Numscript.Typing Numscript.ResourceLimitScript.
 Open Scope Z_scope.
 
 (* ---- no panic -----------------------------------------------------------------------------------------------------------------
@@ -116,6 +117,13 @@ Theorem C12_resource_limit_exact_partial : forall r cs,
   ((N.of_nat (length (c_res cs)) < max_resources)%N -> append_resource r cs <> None).
 Proof. exact resource_limit_exact. Qed.
 Print Assumptions C12_resource_limit_exact_partial.
+
+(* whole compiler, for the scripts whose syntactic count of allocations is within the limit ([within_limits], Typing.v):
+   the table of an accepted script has at most 2^16 entries (it is never longer than that count) *)
+Theorem C12_resource_table_fits_within_limits : forall sc p, compile sc = Some p -> within_limits sc ->
+  (N.of_nat (length (p_res p)) <= max_resources)%N.
+Proof. exact compile_within_limits_fits. Qed.
+Print Assumptions C12_resource_table_fits_within_limits.
 
 (* ---- non-vacuity ---------------------------------------------------------------------------------------------------------- *)
 (* vars { account $a   monetary $b = balance($a, COIN)   monetary $c = balance($a, COIN) }      (two balance() on one account)
